@@ -36,6 +36,9 @@ def instances(tier):
     out.append(dict(id="plain-Euler-mat22", method="Euler", shape=[2, 2], mode="plain", N=N, budget=b))
     for na in (3, 4):
         out.append(dict(id="plain-Euler-vec2-args%d" % na, method="Euler", shape=[2], mode="plain", N=1, nargs=na, budget=b))
+    # the right-hand side is a bound method / an object with __call__ (its first parameter `self` is not one of the rhs parameters)
+    for form in ("method", "object"):
+        out.append(dict(id="plain-Euler-vec2-args3-rhs-is-%s" % form, method="Euler", shape=[2], mode="plain", N=1, nargs=3, rhs_form=form, budget=b))
     out.append(dict(id="maxstep-Euler-vec2", method="Euler", shape=[2], mode="maxstep", N=N, budget=b))
     out.append(dict(id="maxstep-Euler-vec2-shared-callbacks-list", method="Euler", shape=[2], mode="maxstep", N=1, shared_callbacks=True, budget=b))
     for L in ((1, 2) if quick else (1, 2, 3)):
@@ -94,6 +97,17 @@ def scenario(c, inst):
     def fun(t, y, a, b, k=K_DEF, m=M_DEF):
         seen_args.append((a, b, k, m))
         return base(t, y)
+    form = inst.get("rhs_form", "function")
+    if form != "function":
+        plain_fun = fun
+
+        class Model:
+            def rhs(self, t, y, a, b, k=K_DEF, m=M_DEF):
+                return plain_fun(t, y, a, b, k, m)
+
+            def __call__(self, t, y, a, b, k=K_DEF, m=M_DEF):
+                return plain_fun(t, y, a, b, k, m)
+        fun = Model().rhs if form == "method" else Model()
     base2 = FreshRhs(c, shape, name="f", mode="uf")
 
     def fun2(t, y, a, b):
